@@ -91,7 +91,17 @@ def run(ctx: Ctx) -> int:
     ok = bool(rem)
     if ok:
         gch = guard_chain(rem[0])
-        ok = len(gch) == 1 and gch[0][1] and "required_args" in ast.unparse(gch[0][0]) and root_name(rem[0].args[0]) == "target"
+        t0 = gch[0][0] if gch else None
+        ok = (
+            len(gch) == 1
+            and gch[0][1]
+            and isinstance(t0, ast.Compare)
+            and len(t0.ops) == 1
+            and isinstance(t0.ops[0], ast.In)
+            and root_name(t0.left) == "target"
+            and (dotted(t0.comparators[0]) or "").endswith("required_args")
+            and root_name(rem[0].args[0]) == "target"
+        )
     ctx.oblige("C15.b", ok, rem[0] if rem else init, "the link target is removed from required_args unconditionally (if present)" if ok else "the link target stays required / removal is conditional on something else", fn=init, construct="target not required")
 
     # ---------------- C15.c ----------------------------------------------------
